@@ -22,7 +22,9 @@ MANIFEST = {
             "compared with real App.Run starts (expr-lang and validator called directly as oracles)",
     "design_ref": "DESIGN.md 5 C18",
     "note": "trusted: Coq kernel + vm_compute; hand-written pipeline model; expr-lang and validator as oracles (Section variables); "
-            "mapstructure decoding modelled only for scalar field types in the harness comparison (not in theorems); Go driver, generators",
+            "mapstructure decoding modelled only for scalar field types in the harness comparison (not in theorems); Go driver, generators; "
+            "the variant fx of the ${} callback (float64 spliced by strconv2.FormatAny, or in plain digits after repair D-C17g; theorems hold "
+            "for both) is read off the running code by a probe case on every run",
     "technique": "Rocq proof (Sorter contract + StronglySorted for the order, case analysis for the pipeline) + instantiated "
                  "obligation on extracted Order facts + vm_compute correspondence",
 }
@@ -330,6 +332,9 @@ def corpus():
     add({}, "value", "#{nil}", "any", expr="nil")
     add({}, "value", "#{''}", "string", expr="''")
     add({}, "value", "#{2097152.0 * 2.5}", "int", expr="2097152.0 * 2.5")
+    # a float64 of large magnitude through the ${} stage (1e+06 before the repair D-C17g, 1000000 after it), alone and inside an expression
+    add({"a": P.norm_dec(1, 6)}, "value", "${a}", "string")
+    add({"a": P.norm_dec(1, 6), "c": P.norm_dec(1, -5)}, "value", "#{${a}+${c}}", "float")
     return cs + P.corpus_files("C18")
 
 
@@ -364,16 +369,32 @@ def usable(v):
     return True
 
 
+SPLICE_VARIANTS = {"1e+06": False, "1000000": True}
+
+
 def evaluate(ctx, binp, cases, tag):
     send = [{k: v for k, v in c.items() if k in ("id", "config", "tagkey", "tagtext", "ftype", "constraints", "hasvalidate")} for c in cases]
+    # facts probe: which variant of the ${} callback does the tree have?  value:"${k}" with k: 1000000.0, TagVal after the ${} stage:
+    # "1e+06" = strconv2.FormatAny (unrepaired), "1000000" = repair D-C17g (Model/Strconv.v format_cfg, the model's parameter fx)
+    probe_id = max([c["id"] for c in cases] + [0]) + 1
+    send.append({"id": probe_id, "config": P.cfg_json({"k": P.norm_dec(1, 6)}), "tagkey": "value", "tagtext": hx("${k}"),
+                 "ftype": "string", "constraints": "", "hasvalidate": False})
     rc, res, raw = vlib.run_json(binp, {"cases": send, "timeout_ms": 10000}, timeout=3000)
     if res is None:
         raise vlib.GoBuildError("./cmd/c18 (run %s)" % tag, raw[-3000:])
     outs = {o["id"]: o for o in res["outs"]}
+    po = outs.pop(probe_id, None) or {}
+    splice = unhx(po.get("q", "")).decode("utf-8", "replace") if po.get("qseen") else "<outcome %s>" % po.get("outcome")
+    if splice not in SPLICE_VARIANTS:
+        raise vlib.GoBuildError("./cmd/c18 (facts)", "value:\"${k}\" with k: 1000000.0 left TagVal %r after the ${} processor; the model "
+                                "knows \"1e+06\" (unrepaired callback) and \"1000000\" (repair D-C17g)" % (splice,))
+    fix = SPLICE_VARIANTS[splice]
+    ctx.float_fix, ctx.float_splice = fix, splice
     facts = (res.get("facts") or []) + (res.get("observers") or [])
     header = ("From Coq Require Import List NArith ZArith.\n"
               "From IocVerif Require Import Model.Sorter Model.Strconv Model.Placeholder Model.Pipeline Corr.Check_C18.\n"
-              "Import ListNotations.\nDefinition facts : list participant := [%s].\n" % "; ".join(coq_part(f) for f in facts))
+              "Import ListNotations.\nDefinition facts : list participant := [%s].\nDefinition fixv : bool := %s.\n"
+              % ("; ".join(coq_part(f) for f in facts), "true" if fix else "false"))
     terms, by_id, harness, outside = [], {}, [], []
     for c in cases:
         o = outs.get(c["id"]) or {"id": c["id"], "outcome": "crash", "evals": []}
@@ -405,7 +426,7 @@ def evaluate(ctx, binp, cases, tag):
         else:
             tagstr = unhx(o.get("tagstr", ""))
         expr_u = "(Some %s)" % P.coq_b(c["expr"]) if c.get("expr") is not None else "None"
-        terms.append("mkCase %d %d %s %s %s %s [%s] %d %s facts %s %s %s %s %s %d" % (
+        terms.append("mkCase %d %d %s %s %s %s [%s] %d %s facts %s %s %s %s %s %d fixv" % (
             c["id"], 0 if c["tagkey"] == "value" else 1, P.coq_b(tagstr),
             "true" if o.get("required", True) else "false", "true" if c["hasvalidate"] else "false",
             P.coq_cfg(tbl), "; ".join(evals), ft, "true" if o.get("verdict", True) else "false",
@@ -470,6 +491,9 @@ def run(ctx):
             cases.append(gen_validate_case(rng, cid)); cid += 1
     by_id, M, V, cnt, res = evaluate(ctx, binp, cases, "main")
     facts_ok = facts_obligation(ctx, res)
+    ctx.oblige("facts: the tree's ${} callback is one of the two modelled variants (a float64 spliced as strconv2.FormatAny writes it = "
+               "unrepaired, or in plain digits = repair D-C17g)", True,
+               "value:\"${k}\" with k: 1000000.0 gives TagVal %r; D-C17g applied: %s" % (ctx.float_splice, ctx.float_fix))
     ctx.log("cases=%d evaluations=%d nontrivial=%d validate_failures=%d mismatches=%d violations=%d facts_ok=%s" % (
         len(cases), cnt["evals"], cnt["nt"], cnt["vf"], len(M), len(V), facts_ok))
 
@@ -531,6 +555,7 @@ def run(ctx):
         "validate_failures_observed": cnt["vf"],
         "cases_outside_modelled_fragment": cnt["outside"],
         "facts": getattr(ctx, "facts_detail", ""),
+        "callback_variant": {"float_splice_probe": ctx.float_splice, "D-C17g_applied": ctx.float_fix},
     }
     return vlib.decide(ctx, static_ok and facts_ok, by_id, M, V, cov, classify_known=classify_known, widen=widen,
                        assumptions=["expr-lang (Compile+Run) and go-playground/validator are oracles: called directly by the driver on the "
